@@ -461,16 +461,59 @@ def judge_nothing_after_aborted(r, o):
     writes = [a[1].encode("latin-1") for a in app["acts"] if a[0] == "w"]
     nobody = rq["method"] == "HEAD" or exp["code"] in (204, 304)
     chunked = exp["cl"] is None and (rq["major"], rq["minor"]) >= (1, 1) and not nobody
+    body = b"".join(writes)
     if chunked:
-        allowed = b"".join(b"%X\r\n%s\r\n" % (len(w), w) for w in writes if w)
-    elif exp["cl"] is not None:
-        allowed = b"".join(writes)[:exp["cl"]]
-    else:
-        allowed = b"".join(writes)
+        # any chunking of (a prefix of) the application's output, possibly cut anywhere: sizes in either hex case, any chunk
+        # boundaries - only the decoded bytes are the application's business
+        data, ok, why = lenient_chunk_prefix(rest)
+        if not ok:
+            return ["after an application failure behind the response head, the bytes that follow are not a (truncated) chunked "
+                    "stream: %s: %r" % (why, rest[:120])]
+        if not body.startswith(data):
+            return ["after an application failure behind the response head, bytes that are not the application's output follow: %r"
+                    % data[len(os.path.commonprefix([body, data])):][:120]]
+        return []
+    allowed = body[:exp["cl"]] if exp["cl"] is not None else body
     if not allowed.startswith(rest):
         return ["after an application failure behind the response head, bytes that are not the application's output follow: %r"
                 % rest[len(os.path.commonprefix([allowed, rest])):][:120]]
     return []
+
+
+def lenient_chunk_prefix(rest):
+    """decode a chunked stream that may stop anywhere -> (data decoded so far, well-formed-so-far, why not)"""
+    data, pos = b"", 0
+    hexd = b"0123456789abcdefABCDEF"
+    while pos < len(rest):
+        e = rest.find(b"\r\n", pos)
+        line = rest[pos:] if e < 0 else rest[pos:e]
+        size = line.split(b";", 1)[0]
+        if not size.strip(b" \t") and e < 0:
+            return data, True, ""
+        if not size or any(c not in hexd for c in size.strip(b" \t")) or not size.strip(b" \t"):
+            # an incomplete size line at the very end may stop inside the CRLF
+            if e < 0 and all(c in hexd + b"\r" for c in line):
+                return data, True, ""
+            return data, False, "chunk-size line %r" % line[:40]
+        if e < 0:
+            return data, True, ""
+        n = int(size.strip(b" \t"), 16)
+        pos = e + 2
+        if n == 0:
+            tail = rest[pos:]
+            if not b"\r\n".startswith(tail) and tail != b"\r\n":
+                return data, False, "bytes after the last chunk: %r" % tail[:40]
+            return data, True, ""
+        chunk = rest[pos:pos + n]
+        data += chunk
+        pos += n
+        if len(chunk) < n:
+            return data, True, ""
+        term = rest[pos:pos + 2]
+        if not b"\r\n".startswith(term):
+            return data, False, "chunk not followed by CRLF: %r" % term
+        pos += 2
+    return data, True, ""
 
 
 def is_wb_conn(case, served):
